@@ -565,6 +565,70 @@ func runPSI(line []byte, rec *recorder) {
 				rec.ev(M{"ev": "mvec", "class": "muxer-tables", "ok": true, "err": "nil", "n": n, "pat": ints(out[4:188]), "pmt": ints(out[192:376]), "patv": patv, "pmtv": pmtv})
 			}
 		}
+	case "corrupt": // C09: every single-bit flip of a unit, byte substitutions, bursts <= 32 bits, truncations, extensions
+		for i := 0; i < sc.N; i++ {
+			k := sc.K
+			var ms []*tableModel
+			for j, n := 0, r.pick(1, 1, 2); j < n; j++ {
+				ms = append(ms, randTable(r, k, r.intn(3), r.pick(0, 8)))
+			}
+			ptr, trail := r.pick(0, 0, 2), r.pick(0, 1, 3)
+			unit := []byte{byte(ptr)}
+			for j := 0; j < ptr; j++ {
+				unit = append(unit, 0xff)
+			}
+			for _, m := range ms {
+				unit = append(unit, twinSection(m)...)
+			}
+			for j := 0; j < trail; j++ {
+				unit = append(unit, 0xff)
+			}
+			if len(unit) > 180 {
+				continue // one packet per unit keeps the fault's position meaningful
+			}
+			origTabs, oerrs, opan := demuxOutcome(k, unit)
+			orig := []string{}
+			for _, t := range origTabs {
+				orig = append(orig, t["cdg"].(string))
+			}
+			rec.ev(M{"ev": "corig", "class": "clean", "k": k, "b": ints(unit), "orig": orig, "errs": oerrs, "panic": opan, "nsec": len(ms)})
+			emit := func(class string, pos int, c []byte) {
+				tabs, errs, pan := demuxOutcome(k, c)
+				got := []string{}
+				for _, t := range tabs {
+					got = append(got, t["cdg"].(string))
+				}
+				rec.ev(M{"ev": "cvec", "class": class, "k": k, "pos": pos, "b": ints(c), "tabs": got, "errs": errs, "panic": pan})
+			}
+			for bit := 0; bit < len(unit)*8; bit++ {
+				c := append([]byte(nil), unit...)
+				c[bit/8] ^= 0x80 >> uint(bit%8)
+				emit("bit-flip", bit, c)
+			}
+			for j := 0; j < 12; j++ {
+				c := append([]byte(nil), unit...)
+				p := r.intn(len(c))
+				c[p] = byte(r.intn(256))
+				emit("byte-substitution", p, c)
+			}
+			for j := 0; j < 12; j++ {
+				c := append([]byte(nil), unit...)
+				start, n := r.intn(len(c)*8), r.rangeInt(2, 32)
+				for b := start; b < start+n && b < len(c)*8; b++ {
+					if b == start || b == start+n-1 || r.boolean() {
+						c[b/8] ^= 0x80 >> uint(b%8)
+					}
+				}
+				emit("burst", start, c)
+			}
+			for j := 0; j < 8; j++ {
+				cut := r.intn(len(unit))
+				emit("truncation", cut, append([]byte(nil), unit[:cut]...))
+			}
+			for j := 0; j < 4; j++ {
+				emit("extension", len(unit), append(append([]byte(nil), unit...), r.bytes(r.rangeInt(1, 8))...))
+			}
+		}
 	default:
 		fatal("unknown psi part %q", sc.Part)
 	}
